@@ -496,6 +496,7 @@ type dkgObs struct {
 	GpkAgree    bool
 	First, All  string
 	Direct      string
+	Twin        string // group signature held by logical.groupSignGenerator ("" when the hook is absent)
 }
 
 // guardP: like hx.Guard but without the runtime's panic text (embedded in a longer answer).
@@ -612,6 +613,14 @@ func execDkg(w []string, obs *dkgObs) string {
 	}
 	if obs != nil {
 		obs.First, obs.All, obs.Direct = first, allS, sigTok(&direct)
+		if lgenNew != nil && m >= k {
+			tw := lgenNew(k)
+			for _, a := range arr {
+				tw.AddWitnessSign(d.ids[a], shares[a])
+			}
+			ts := tw.GetGroupSign()
+			obs.Twin = "ok " + sigTok(&ts)
+		}
 		obs.GpkAgree = true
 		for j := 0; j < n; j++ {
 			pk := groupsig.GeneratePubkey(d.msk[j])
@@ -1278,6 +1287,9 @@ func search(r *hx.Rng, thorough bool, hintLines []string) searchOut {
 		}
 		if !obs.GroupVerify {
 			addV("group-signature-invalid"+keySuffix, "recovered group signature fails VerifySig under the group public key", line)
+		}
+		if obs.Twin != "" && obs.Twin != "ok "+obs.Direct {
+			addV("round-generator-signature-differs"+keySuffix, "logical.groupSignGenerator (the generator round1 uses) holds a signature different from Sign(group secret): "+trunc(obs.Twin, 40)+" direct="+trunc(obs.Direct, 40), line)
 		}
 		if obs.First != "ok "+obs.Direct || obs.All != "ok "+obs.Direct {
 			addV("subset-dependent-signature"+keySuffix, "recovered signature differs between subsets / from Sign(group secret): first-k="+trunc(obs.First, 40)+" all="+trunc(obs.All, 40)+" direct="+trunc(obs.Direct, 40), line)
